@@ -242,6 +242,7 @@ func (vc *VC) runUnrolled(rs *runState, li *loopInfo, K int, done map[*ssa.Basic
 			}
 		}
 		// head
+		li.headHeap = heap.clone()
 		vc.cur = &blockCtx{b: h, pc: pc, heap: heap}
 		for phi, v := range phiVals {
 			vc.bind(phi, v)
@@ -885,7 +886,22 @@ func (vc *VC) lineAsserts(ins ssa.Instruction) {
 		heapNow := vc.cur.heap
 		env.local = func(name string) *Val { return vc.localAtInstr(name, ins, heapNow) }
 		env.localFirst = true
+		env.marks = vc.markHeaps
+		// innermost enclosing loop head state
+		var inner *loopInfo
+		for _, lo := range vc.loops {
+			if lo.blocks[ins.Block()] && lo.headHeap != nil && (inner == nil || len(lo.blocks) < len(inner.blocks)) {
+				inner = lo
+			}
+		}
+		if inner != nil {
+			env.headHeap = inner.headHeap
+		}
 		t := vc.compileClause(env, la.Cl)
+		if vc.markHeaps == nil {
+			vc.markHeaps = map[string]*Heap{}
+		}
+		vc.markHeaps[la.Marker] = heapNow.clone()
 		kind := "assert"
 		if la.Cl.Label != "" {
 			kind = "assert." + la.Cl.Label
